@@ -120,12 +120,16 @@ def mk_station_data(module, source, ivs, ident0=0):
             return {"site_eccentricity": [dict(start_time=d(s), end_time=d(e), vector_type="UNE", vector_1=0.0, vector_2=0.0,
                                                vector_3=0.0, verif_id=ident0 + i) for i, (s, e) in enumerate(ivs)]}
         if module == "site_coord":
-            eps = [dict(soln=str(i + 1), start_epoch=d(s), end_epoch=d(e), mean_epoch=None, verif_id=ident0 + i)
+            # solution numbers: unique 1..n, or (as SINEX allows: a solution is identified by site, point AND number,
+            # and files may use '----' throughout) repeated values - every SOLUTION/EPOCHS entry is its own period
+            mode = (ident0 // 100 + len(ivs)) % 3
+            solns = [str(i + 1) if mode == 0 else ("----" if mode == 1 else str(i // 2 + 1)) for i in range(len(ivs))]
+            eps = [dict(soln=solns[i], point_code="AB"[i % 2], start_epoch=d(s), end_epoch=d(e), mean_epoch=None, verif_id=ident0 + i)
                    for i, (s, e) in enumerate(ivs)]
             est = []
             for i in range(len(ivs)):
                 for pn in ("STAX", "STAY", "STAZ"):
-                    est.append(dict(soln=str(i + 1), param_name=pn, estimate=1.0 + i, estimate_std=0.1,
+                    est.append(dict(soln=solns[i], point_code="AB"[i % 2], param_name=pn, estimate=1.0 + i, estimate_std=0.1,
                                     ref_epoch=datetime(2010, 1, 1), unit="m"))
             return {"solution_epochs": eps, "solution_estimate": est}
     if source == "ssc":
@@ -361,8 +365,11 @@ def run(ctx):
     # ---- E. the repository's own example files through the parsers
     exE = example_file_cases(ctx, mism)
 
+    # ---- F. SSC and SINEX files rendered from random histories, read by the ssc_site / sinex_site parsers
+    exF = rendered_file_cases(ctx, mism)
+
     # ---------------------------------------------------------------- decide
-    for name, flat, meta in (("A", flatA, metaA), ("B", flatB, metaB), ("C", flatC, metaC), ("D", flatD, metaD), ("E", exE[0], exE[1])):
+    for name, flat, meta in (("A", flatA, metaA), ("B", flatB, metaB), ("C", flatC, metaC), ("D", flatD, metaD), ("E", exE[0], exE[1]), ("F", exF[0], exF[1])):
         if flat is None:
             ctx.violation({"broken": f"correspondence shard {name} did not evaluate in Coq", "errors": ctx.last_coq_errors[:2]},
                           what="correspondence (model evaluation) failed", found=False)
@@ -475,6 +482,167 @@ def example_file_cases(ctx, mism):
                     meta.append(rep)
                     ctx.case(("E", pname, st, module, qd), nontrivial=len(ivs_us) >= 2)
         ctx.count(f"example:{pname}")
+    vs = ctx.coq_cases(emit.shard_terms("check_get", cases, 300), REQ)
+    return emit.flatten_verdicts(vs, len(cases)), meta
+
+
+def _yyddd(sec):
+    """seconds since T0 (2000-01-01) -> 'YY:DDD:SSSSS' (SINEX / SSC epoch)"""
+    d = dt_of(sec * 1000000)
+    return f"{d.year % 100:02d}:{d.timetuple().tm_yday:03d}:{d.hour * 3600 + d.minute * 60 + d.second:05d}"
+
+
+def gen_file_intervals(rng):
+    """Histories for rendered files: whole-second epochs between 1996 and 2040 (two-digit years resolve uniquely for
+    both strptime's %y pivot and the SINEX rule), a share of epochs inside the year 2000 (YY = 00 is also the year of
+    the open-ended marker 00:000:00000), open ends, any listing order."""
+    n = rng.choice([1, 2, 2, 3, 3, 4, 5])
+    if rng.random() < 0.45:
+        t = rng.randrange(0, 300) * 86400 + rng.choice([0, 0, 3600, 86370])          # inside 2000
+    else:
+        t = rng.randrange(-1400, 14000) * 86400 + rng.choice([0, 0, 30, 43200, 86370])
+    ivs = []
+    for _ in range(n):
+        length = rng.choice([86400, 86400 * 20, 86400 * 200, 86400 * 900, 3600])
+        ivs.append([t, t + length])
+        t = t + length + rng.choice([0, 30, 86400, 86400 * 40])
+    if rng.random() < 0.4:
+        ivs[0][0] = None
+    if rng.random() < 0.5:
+        ivs[-1][1] = None
+    order = list(range(n))
+    if rng.random() < 0.5:
+        rng.shuffle(order)
+    return [tuple(ivs[i]) for i in order]
+
+
+def render_ssc(stations):
+    """stations: {name: [(start|None, end|None, ident)]} -> text of an SSC file"""
+    out = ["               CLASS_A EPN STATION POSITIONS AND VELOCITIES",
+           "               REFERENCE FRAME:    IGb14    AT EPOCH OF 2010.0",
+           "DOMES NB. SITE NAME        TECH. ID.       X/Vx         Y/Vy         Z/Vz.          Sigmas      SOLN  DATA_START     DATA_END   REF. EPOCH",
+           "-" * 138]
+    for k, (name, recs) in enumerate(stations.items()):
+        domes = f"{10001 + k:05d}M{1 + k:03d}"
+        for soln, (s_, e_, ident) in enumerate(recs, 1):
+            start = "00:000:00000" if s_ is None else _yyddd(s_)
+            end = "00:000:00000" if e_ is None else _yyddd(e_)
+            out.append(f"{domes} {name.upper():<16s}{'GPS':>5s} {name.upper():<4s} {4000000 + ident:12.3f} {306998.578:12.3f} {4919498.918:12.3f}"
+                       f"  0.001  0.001  0.001 {soln:2d} {start} {end} 10:001:00000")
+            out.append(f"{domes}" + " " * 34 + f"{-0.0137:7.4f} {0.0169:12.4f} {0.0107:12.4f} 0.0001 0.0001 0.0001")
+    return "\n".join(out) + "\n"
+
+
+def render_snx(stations):
+    """stations: {name: {module: [(start|None, end|None, ident)]}} -> text of a SINEX file with the site blocks"""
+    def ep(x):
+        return "00:000:00000" if x is None else _yyddd(x)
+    out = ["%=SNX 2.01 IGS 20:316:15732 IGS 00:000:00000 00:000:00000 P 00000 0", "+SITE/ID"]
+    for k, name in enumerate(stations):
+        out.append(f" {name:4s}  A {10001 + k:05d}M{1 + k:03d} P {'Somewhere, Country':<22s}  4 21 30.8  50 47 53.0   158.3")
+    out.append("-SITE/ID")
+    out.append("+SITE/RECEIVER")
+    for name, mods in stations.items():
+        for s_, e_, ident in mods["receiver"]:
+            out.append(f" {name:4s}  A ---- P {ep(s_)} {ep(e_)} {'SEPT POLARX2':<20s} {str(ident):<5s} {'2.6.2':<11s}")
+    out.append("-SITE/RECEIVER")
+    out.append("+SITE/ANTENNA")
+    for name, mods in stations.items():
+        for s_, e_, ident in mods["antenna"]:
+            out.append(f" {name:4s}  A ---- P {ep(s_)} {ep(e_)} {'ASH701945E_M    NONE':<20s} {str(ident):<5s}")
+    out.append("-SITE/ANTENNA")
+    out.append("+SITE/ECCENTRICITY")
+    for name, mods in stations.items():
+        for s_, e_, ident in mods["eccentricity"]:
+            out.append(f" {name:4s}  A ---- P {ep(s_)} {ep(e_)} UNE {ident / 10000:8.4f} {0.001:8.4f} {0.0:8.4f}")
+    out.append("-SITE/ECCENTRICITY")
+    out.append("%ENDSNX")
+    return "\n".join(out) + "\n"
+
+
+def _ident_of(module, source, obj):
+    """identity of the record a returned site-information object was built from (payload written by the renderers)"""
+    if obj is None or isinstance(obj, str):
+        return obj
+    if source == "ssc":
+        return int(round(obj._info["STAX"] - 4000000))
+    if module == "eccentricity":
+        return int(round(float(obj._info["vector_1"]) * 10000))
+    return int(str(obj._info["serial_number"]).strip())
+
+
+def rendered_file_cases(ctx, mism):
+    """Random histories written as SSC / SINEX text, parsed by midgard's ssc_site / sinex_site parsers and queried
+    through the modules; the model sees only the intervals that were written."""
+    from midgard import parsers
+    rng = ctx.rng
+    cases, meta = [], []
+    d = os.path.join(ctx.work, "files")
+    os.makedirs(d, exist_ok=True)
+    nfiles = 14 if ctx.quick() else 150
+    for k in range(nfiles):
+        source = "ssc" if k % 2 == 0 else "snx"
+        names = rng.sample(["zimm", "osls", "tro1", "ab12", "smne"], rng.randrange(1, 4))
+        ident = 1
+        if source == "ssc":
+            st = {}
+            for nme in names:
+                ivs = gen_file_intervals(rng)
+                st[nme] = [(s_, e_, ident + i) for i, (s_, e_) in enumerate(ivs)]
+                ident += 10
+            text = render_ssc(st)
+            per = {(nme, "site_coord"): recs for nme, recs in st.items()}
+        else:
+            st = {}
+            for nme in names:
+                st[nme] = {}
+                for m in ("receiver", "antenna", "eccentricity"):
+                    ivs = gen_file_intervals(rng)
+                    st[nme][m] = [(s_, e_, ident + i) for i, (s_, e_) in enumerate(ivs)]
+                    ident += 10
+            text = render_snx(st)
+            per = {(nme, m): recs for nme, mods in st.items() for m, recs in mods.items()}
+        path = os.path.join(d, f"rendered_{k:03d}.{source}")
+        with open(path, "w") as f:
+            f.write(text)
+        try:
+            data = parsers.parse_file("ssc_site" if source == "ssc" else "sinex_site", path).as_dict()
+        except Exception as e:
+            mism.append(("other", dict(kind="rendered_file", source=source, text=text, observed=f"parser raised {type(e).__name__}: {e}")))
+            continue
+        ctx.count(f"rendered:{source}")
+        for (nme, module), recs in per.items():
+            pts = set()
+            for s_, e_, _ in recs:
+                for b_ in (s_, e_):
+                    if b_ is not None:
+                        pts.update([b_, b_ - 1, b_ + 1, b_ - 86400 * 400])
+            pts.add(rng.randrange(-2000, 15000) * 86400)
+            if any(s_ is not None and 0 <= s_ < 366 * 86400 or e_ is not None and 0 <= e_ < 366 * 86400 for s_, e_, _ in recs):
+                ctx.count("rendered:epoch_in_year_2000")
+            for qd in sorted(pts) + ["last"]:
+                date = "last" if qd == "last" else dt_of(qd * 1000000)
+                sdq = copy.deepcopy(data)
+                res = observe(lambda: module_cls(module).get(source, sdq, nme.upper() if rng.random() < 0.3 else nme, date)[nme])
+                res = _ident_of(module, source, res) if not isinstance(res, str) else res
+                obs = "Nothing" if res is None else (res if isinstance(res, str) else f"(Found {emit.z(res)})")
+                rep = dict(kind="rendered_file", source=source, station=nme, module=module, file_text=text,
+                           records_s_since_2000=recs, query=("last" if qd == "last" else date.isoformat()), observed=obs,
+                           how=f"write file_text to a file, parsers.parse_file('{'ssc_site' if source == 'ssc' else 'sinex_site'}', path).as_dict(), "
+                               f"then {module_cls(module).__name__}.get({source!r}, data, {nme!r}, date)")
+                if obs.startswith("OTHER:"):
+                    mism.append(("other", rep))
+                    continue
+                raws = emit.lst(emit.pair(emit.opt(None if s_ is None else emit.z(s_ * 1000000)),
+                                          emit.opt(None if e_ is None else emit.z(e_ * 1000000)), emit.z(i_)) for s_, e_, i_ in recs)
+                cases.append(emit.pair(raws, "Last" if qd == "last" else f"(At {emit.z(qd * 1000000)})", obs))
+                meta.append(rep)
+                ctx.case(("F", source, nme, module, tuple(recs), qd), nontrivial=len(recs) >= 2,
+                         sample=(dict(rep, file_text=text[:400] + "...") if len(meta) < 2 else None))
+        try:
+            os.unlink(path)
+        except OSError:
+            pass
     vs = ctx.coq_cases(emit.shard_terms("check_get", cases, 300), REQ)
     return emit.flatten_verdicts(vs, len(cases)), meta
 
